@@ -37,8 +37,59 @@ func runC10(c *core.Ctx) {
 	ruleStreamOwner(c, a)
 	c.Doc("C10.order", "process dispatches synchronously between two reads", 2)
 	ruleProcessOrder(c, a)
-	c.Doc("C10.enqueue", "enqueue is non-blocking, under handlersMutex, only after the handler's own filter matched", 1)
+	c.Doc("C10.enqueue", "enqueue is non-blocking, under handlersMutex, only after the handler's own filter matched; every handler is offered every message", 2)
 	ruleSendOwner(c, a, lc, "C10.enqueue")
+	ruleDispatchVisitsAll(c, a, "C10.enqueue")
+}
+
+// ruleDispatchVisitsAll: dispatch offers the message to every registered
+// handler: once the loop over the table is entered, the function returns only
+// through the loop's exit (no early return from inside the loop body).
+func ruleDispatchVisitsAll(c *core.Ctx, a *epAnchors, rule string) {
+	fn := a.dispatch
+	// loop headers: blocks with a back edge whose condition involves len(handlers)
+	var header *ssa.BasicBlock
+	for _, b := range fn.Blocks {
+		back := false
+		for _, p := range b.Preds {
+			if b.Dominates(p) {
+				back = true
+			}
+		}
+		if !back || len(b.Instrs) == 0 {
+			continue
+		}
+		if _, ok := b.Instrs[len(b.Instrs)-1].(*ssa.If); ok {
+			header = b
+		}
+	}
+	key := "bus/net.endPoint.dispatch/visits-all"
+	if header == nil {
+		c.Fail(rule, key, fn.Pos(), "dispatch has no loop over the handler table")
+		return
+	}
+	// the filter call must be inside the loop
+	var filterCall ssa.Instruction
+	for _, call := range core.Calls(fn) {
+		cc := call.Common()
+		if !cc.IsInvoke() && cc.StaticCallee() == nil && isFieldOf(cc.Value, a.hFilter) {
+			filterCall = call.(ssa.Instruction)
+		}
+	}
+	if filterCall == nil || !header.Dominates(filterCall.Block()) {
+		c.Fail(rule, key, fn.Pos(), "the handler filters are not evaluated inside the loop over the handler table")
+		return
+	}
+	// from the body entry, no return is reachable without coming back to the header
+	body := header.Succs[0]
+	r := core.ReachFrom(core.Point{B: body, I: 0}, func(in ssa.Instruction) bool { return in.Block() == header }, nil)
+	bad := ""
+	for _, ret := range core.Returns(fn) {
+		if r.Has(ret) {
+			bad = "dispatch can return from inside the loop over the handlers (at " + c.Pos(ret.Pos()) + "): the handlers in later slots never see a message their filter selects"
+		}
+	}
+	c.Check(bad == "", rule, key, header.Instrs[0].Pos(), "the loop over the handler table has no early exit: every handler's filter sees every message", bad)
 }
 
 func usesValue(call ssa.CallInstruction, v ssa.Value) bool {
